@@ -569,6 +569,45 @@ func c03Run(c *core.Ctx) {
 			return
 		}
 	}
+	// ---- E2c: odd JavaScript results - as the record's value and handed on as an argument to other functions ----
+	oddJS := []string{
+		"var a={}; a.a=a; a", "var a=[]; a[0]=a; a", "var a={b:{}}; a.b.c=a; a", "var a=[]; var b=a; for (var i=0;i<20000;i++){ b[0]=[]; b=b[0] } a",
+		"var o={}; var p=o; for (var i=0;i<20000;i++){ p.k={}; p=p.k } o", "new Array(100000).join('x')", "new Date(0)", "(function(){})", "Symbol('s')",
+		"new Proxy({}, {get: function(){ throw 'x' }})", "({get a(){ throw 1 }})", "({toJSON: function(){ throw 2 }})", "new Uint8Array(4)", "new Map([[1,2]])", "new Set([1])",
+		"/re/g", "new Error('e')", "[1,,3]", "Object.create(null)", "(function(){ return arguments })(1,2)", "new Boolean(false)", "this", "JSON", "Math",
+		"[NaN, Infinity, -0, undefined, null]", "({a: undefined, b: NaN})", "'\\ud800'", "String.fromCharCode(0)", "1e400", "-1e400", "new Array(5000000)",
+	}
+	for _, js := range oddJS {
+		inner := gd{"custom_func": gd{"name": "javascript", "ignore_error": false, "args": []interface{}{gd{"const": js}}}}
+		for vi, ctxv := range []gd{
+			{"FINAL_OUTPUT": gd{"object": gd{"k": inner}}},
+			{"FINAL_OUTPUT": inner},
+			{"FINAL_OUTPUT": gd{"object": gd{"k": gd{"custom_func": gd{"name": "javascript", "args": []interface{}{gd{"const": "typeof x"}, gd{"const": "x"}, inner}}}}}},
+			{"FINAL_OUTPUT": gd{"object": gd{"k": gd{"custom_func": gd{"name": "javascript", "args": []interface{}{gd{"const": "JSON.stringify(x)"}, gd{"const": "x"}, inner}}}}}},
+			{"FINAL_OUTPUT": gd{"object": gd{"k": gd{"custom_func": gd{"name": "concat", "args": []interface{}{gd{"const": "<"}, inner}}}}}},
+			{"FINAL_OUTPUT": gd{"object": gd{"a": inner, "b": inner, "k": gd{"custom_func": gd{"name": "javascript", "args": []interface{}{gd{"const": "x === y"}, gd{"const": "x"}, inner, gd{"const": "y"}, inner}}}}}},
+			{"FINAL_OUTPUT": gd{"array": []interface{}{inner, inner}}},
+			{"FINAL_OUTPUT": gd{"object": gd{"k": gd{"xpath_dynamic": inner}}}},
+			{"FINAL_OUTPUT": gd{"object": gd{"k": cp(inner, "type", "string")}}},
+			{"FINAL_OUTPUT": gd{"object": gd{"k": cp(inner, "type", "int")}}},
+			{"FINAL_OUTPUT": gd{"object": gd{"k": cp(inner, "type", "boolean", "keep_empty_or_null", true)}}},
+			{"FINAL_OUTPUT": gd{"object": gd{"k": gd{"custom_func": gd{"name": "upper", "args": []interface{}{inner}}}}}},
+			{"FINAL_OUTPUT": gd{"object": gd{"k": gd{"custom_func": gd{"name": "coalesce", "args": []interface{}{inner, gd{"const": "x"}}}}}}},
+		} {
+			idx++
+			if !c.Mine(idx) {
+				continue
+			}
+			cs := c03Case{Family: "odd-javascript-result", Decls: ctxv, Note: fmt.Sprintf("context %d", vi)}
+			c.Begin(func() interface{} { return cs })
+			sig, detail := c03Func(ctxv)
+			c.Eval(fmt.Sprintf("E2c|%d", vi))
+			c.Count("odd_javascript_results", 1)
+			if sig != "" {
+				report(sig, detail, cs)
+			}
+		}
+	}
 	// ---- E1r: regular expressions at every place a pattern can be written ----
 	regexes := []string{"", ".*", "^", "$", "^$", "(", ")", "[", "[a", "a*", "a**", "(?i)x", "\\", "\\d+", "[^\\n]*", "(a|b)*", "x|", "|", ".{0,1000}", ".{1001}", "\\pL", "(?P<n>x)", "(?s).*", "(?m)^", "\\b", "\\z", "a{2,1}", "\\1", "(?=x)", "^H", "^.", "^\\s*$", ".", "\\x00", "\u00e9+", "^(H|D|T)", ".*?", "(((((((((((a)))))))))))"}
 	for _, it := range seeds {
@@ -711,6 +750,8 @@ func c03XPathExprs() []string {
 		"a[substring(., 5) = '']", "a[substring(., 0, -1) = '']", "a[substring(., 2, 99) = '']", "a[matches(., '(')]", "a[matches(., '[')]", "a[round(1.5) = 2]", "a[contains(., ../b)]", "a[contains(., ../*)]", "a[starts-with(., ../*)]",
 		"a[5 mod 0 = 0]", ".[5 mod 0 = 0]", "a[. mod 0 = 0]", "a[floor(.) = 1]", "a[ceiling(b) = 1]", "a[round(.) = 1]", "a[translate(., 'ab', 'a') = '']", "a[replace(., '(', 'x') = '']", "a[string-length(../*) = 1]", "a[normalize-space(../*) = '']",
 		"a[sum(../b) = 1]", "a[number(../*) = 1]", "a[concat(., ../*) = '']", "a[substring-before(., ../*) = '']", "a[reverse(..)]", "a[lang('en')]", "a[name(..) = 'o']", "a[local-name(../*) = 'a']", "a[count(.) = '1']", "a[position() = last()]", "a[last() = 'x']", "a[position() > 'x']",
+		// a comparison / boolean / number where a node-set is required inside a node-set expression
+		"a | (1=1)", "a | (b='x')", "a | (1=2)", "(a='1')/b", "(1=1)/a", "a | true()", "a | 1", "a | 'x'", "a | count(b)", "(a | (1=1))[1]", "a[b] | (b='x')", "//a | //b[.=(1=1)]", "a | (b and a)", "a | not(b)",
 		"a[true()]", "a[false()]", "a[b and true()]", "a[not(b)]", "a[position()]", "a[last()][1]", "a[1][1]", "a[b[c]]", "a[.=..]", "//*[.//*]", "a[count(b)]", "a[string()]", "a[1 div 0]", "a[0]", "a[-1]", "a['x']", "a[''])",
 		"", " ", "[", "]", "a[", "a]", "//", "///", "a//", "@", "a/@", "a::b", "child::", "a b", "a,b", "a=", "=a", "and", "or", "()", "(", "a |", "| a", "$a", "a[$b]", "1 2", "a/(b)", "a/(b and c)", "f()", "a:b", "a:*", "*:a", "@a:b",
 		"a[1", "a[1]]", "'unterminated", "a[.='x]", "//*[text()='1' and @k]", ".[a!='0' and b!='z']", "./.", "./..", "../..", "/..", "/.", "a/./b", ".//.",
